@@ -244,6 +244,10 @@ func (h *c16Run) launch(r *c16Req) {
 
 var c16StackBuf = make([]byte, 1<<20)
 
+// c16Hangs counts histories in which some goroutine never came to rest; the first few get the
+// generous timeout, later ones a short one (a broken limiter makes thousands of histories hang).
+var c16Hangs int
+
 // goroutine id -> (wait state, stack text) from a stop-the-world dump of all goroutines
 func c16Dump() map[int64][2]string {
 	n := runtime.Stack(c16StackBuf, true)
@@ -298,7 +302,11 @@ func c16Classify(r *c16Req, done int32, dump map[int64][2]string) int {
 
 // settle waits until every launched request is at rest and returns the observation.
 func (h *c16Run) settle(n int) c16Obs {
-	deadline := time.Now().Add(10 * time.Second)
+	patience := 10 * time.Second
+	if c16Hangs >= 3 {
+		patience = 300 * time.Millisecond
+	}
+	deadline := time.Now().Add(patience)
 	sts := make([]int, n)
 	for spin := 0; ; spin++ {
 		runtime.Gosched()
@@ -321,7 +329,11 @@ func (h *c16Run) settle(n int) c16Obs {
 				sts[i] = c
 			}
 		}
-		if !moving || time.Now().After(deadline) {
+		if !moving {
+			break
+		}
+		if time.Now().After(deadline) {
+			c16Hangs++
 			break
 		}
 		if spin > 200 {
@@ -608,6 +620,13 @@ func c16Random(e *Emitter, rng *Rng, cfg c16Cfg, tag string) {
 	c16Emit(e, cfg.epl, cfg.tot, len(cfg.keys), cfg.nk, steps, tag)
 }
 
+func c16FreePatience() time.Duration {
+	if c16Hangs >= 3 {
+		return time.Second
+	}
+	return 20 * time.Second
+}
+
 // free-running goroutines: n calls, each cancelled with probability pc at a random moment.
 func c16Free(e *Emitter, epl, tot int64, n, nk int, seed uint64) {
 	rng := NewRng(seed)
@@ -665,8 +684,9 @@ func c16Free(e *Emitter, epl, tot int64, n, nk int, seed uint64) {
 	hang := false
 	select {
 	case <-fin:
-	case <-time.After(20 * time.Second):
+	case <-time.After(c16FreePatience()):
 		hang = true
+		c16Hangs++
 	}
 	maxg := make([]string, nk)
 	for k := 0; k < nk; k++ {
@@ -750,7 +770,7 @@ func runC16(a runArgs) error {
 		enum(2, 2, []int64{1, 2, 0}, []int64{1, 2, 0}, 1, 0)
 		enum(3, 2, []int64{1, 2}, []int64{1, 2, 3}, 1, 0)
 		enum(4, 2, []int64{1, 2}, []int64{1, 2, 3}, 0, 0)
-		enum(5, 2, []int64{1, 2}, []int64{1, 2, 3}, 0, 40)
+		enum(5, 2, []int64{1, 2}, []int64{1, 2, 3}, 0, 25)
 	}
 	e.Extra["exhaustive_histories"] = exhaustive
 	e.Extra["exhaustive"] = complete
